@@ -13,6 +13,10 @@ import AskarModel.Model.Uri
 import AskarModel.Model.Keys
 import AskarModel.Lemmas.Uri
 import AskarModel.Lemmas.Keys
+import AskarModel.Model.KeysDisk
+import AskarModel.Model.SqliteOpts
+import AskarModel.Lemmas.KeysDisk
+import AskarModel.Lemmas.UriOpts
 
 namespace Askar.C08
 open Askar.Uri Askar.Keys
@@ -283,5 +287,300 @@ def exOpts : Options :=
 example : exOpts.WF = true := by decide
 example : parseUri (intoUri exOpts) = exOpts := by decide
 example : d1Witness.WF = true := d1Witness_wf
+
+/-! ## Model A′ — what is at the path is not a store this code wrote (Model/KeysDisk.lean)
+
+`Disk` = nothing / a directory / a non-database / a database without tables / a database whose three `config` cells are each
+missing, a TEXT (NULL reads as ""), or a BLOB.  `openDisk` is `SqliteStoreOptions::open` on it. -/
+
+/-- **The codec of `config.key` is total**: every text either parses to a well-formed reference or is refused with
+    `Unsupported` — no third outcome, no panic. -/
+theorem keyref_parse_total (s : Str) :
+    (∃ r, KeyRef.parse s = .ok r ∧ r.WF) ∨ KeyRef.parse s = .error .unsupported := by
+  cases h : KeyRef.parse s with
+  | ok r => exact Or.inl ⟨r, rfl, parse_wf h⟩
+  | error e => rw [keyRef_parse_err h]; exact Or.inr rfl
+
+/-- … and so is the method parser of the caller's side. -/
+theorem method_parse_total (s : Str) : (∃ m, Method.parse s = .ok m) ∨ Method.parse s = .error .unsupported := by
+  cases h : Method.parse s with
+  | ok m => exact Or.inl ⟨m, rfl⟩
+  | error e => rw [method_parse_err h]; exact Or.inr rfl
+
+/-- Resolving a parsed reference with a pass key either yields a store key or is refused with `Input`. -/
+theorem keyref_resolve_total (r : KeyRef) (pass : PassKey) :
+    (∃ sk, r.resolve C pass = .ok sk) ∨ r.resolve C pass = .error .input := by
+  cases h : r.resolve C pass with
+  | ok sk => exact Or.inl ⟨sk, rfl⟩
+  | error e => rw [keyRef_resolve_err h]; exact Or.inr rfl
+
+/-- The salt of a derived-key reference is accepted iff the LAST `salt` parameter of the detail is the hex text of exactly
+    16 bytes (either case of the digits); absent, odd, non-hex, 15 or 17 bytes: `Input`. -/
+theorem salt_accepted_iff (d : Str) (b : Bytes) :
+    parseSalt d = .ok b ↔ ∃ s, Uri.mapGet (parseUri d).query sSalt = some s ∧ hexDecode s = some b ∧ b.length = 16 :=
+  parseSalt_ok_iff d b
+
+theorem salt_accepted_has_32_digits (d : Str) (b : Bytes) (h : parseSalt d = .ok b) :
+    b.length = 16 ∧ ∃ s, Uri.mapGet (parseUri d).query sSalt = some s ∧ s.length = 32 :=
+  parseSalt_ok_length h
+
+theorem salt_refused_with_input (d : Str) (e : Err) (h : parseSalt d = .error e) : e = .input := parseSalt_err h
+
+/-- Codec laxness made explicit: after the prefix `raw` / `none` a `:` and ANY text is accepted and ignored. -/
+theorem keyref_prefix_decides (s : Str) :
+    ((splitOnce 0x3A s).1 = sRaw → KeyRef.parse s = .ok .raw) ∧ ((splitOnce 0x3A s).1 = sNone → KeyRef.parse s = .ok .unprotected) :=
+  ⟨keyRef_parse_raw s, keyRef_parse_none s⟩
+
+/-- **`open` writes nothing**, whatever is at the path and whatever the outcome. -/
+theorem open_never_writes (d : Disk C I) (m : Option Method) (pass : PassKey) (p : Option Str) :
+    (openDisk C d m pass p).1 = d := rfl
+
+/-- On a store written by this code, `openDisk` IS the `openStore` of model A: every theorem above carries over. -/
+theorem open_on_store_is_model_A (fs : Fs C I) (m : Option Method) (pass : PassKey) (p : Option Str) :
+    openDisk C (Disk.ofFs fs) m pass p = (Disk.ofFs fs, (openStore C fs m pass p).2) :=
+  openDisk_ofFs fs m pass p
+
+/-- **Every refusal carries a documented kind** — Backend, Encryption, Input, NotFound or Unsupported; never Busy, Custom,
+    Duplicate or Unexpected — for every disk state, method, pass key and profile (given that the profile-key loader answers
+    Encryption / Unsupported, see `profile_key_load_kinds`). -/
+theorem open_refused_with_documented_kind (hL : LoadKinds C) (d : Disk C I) (m : Option Method) (pass : PassKey)
+    (p : Option Str) (e : Err) (h : (openDisk C d m pass p).2 = .error e) : Documented e :=
+  openDisk_err_kinds hL d m pass p e h
+
+/-- **Only a well-formed configuration opens**: a database; version exactly "1"; the key row a TEXT; no BLOB where a text is
+    read; a profile to activate (the caller's or a TEXT default) — and then the outcome is that of model A's `openDb` on the
+    store these rows describe (so `open_iff_right_key` applies: the key text must parse, the method match, the pass key resolve
+    to the sealing key). -/
+theorem open_only_wellformed_config (d : Disk C I) (m : Option Method) (pass : PassKey) (p : Option Str) (h : Handle C)
+    (ho : (openDisk C d m pass p).2 = .ok h) :
+    ∃ cfg ps it k q, d = .db cfg ps it ∧ cfg.version = .text sOne ∧ cfg.key = .text k ∧ cfg.defaultProfile ≠ .blob ∧
+      (match p with | some p' => q = p' | none => cfg.defaultProfile = .text q) ∧
+      openDb C { keyRef := k, defaultProfile := q, profiles := ps, items := it } m pass (some q) = .ok h :=
+  openDisk_ok d m pass p h ho
+
+/-- **Every malformed configuration is refused with the kind of its first defect, and nothing is written.** -/
+theorem malformed_config_refused (cfg : Config) (ps : List (Str × C.Blob)) (it : I) (m : Option Method) (pass : PassKey)
+    (p : Option Str) (e : Err) (h : readConfig cfg p = .error e) :
+    openDisk C (.db cfg ps it) m pass p = (.db cfg ps it, .error e) := by
+  simp [openDisk, openCfg, h]
+
+/-- the defects and their kinds: a BLOB anywhere → Backend (the rows are visited before any check) … -/
+theorem config_blob_refused (cfg : Config) (p : Option Str)
+    (h : cfg.defaultProfile = .blob ∨ cfg.key = .blob ∨ cfg.version = .blob) : readConfig cfg p = .error .backend :=
+  readConfig_blob cfg p h
+
+/-- … the version row missing, NULL, "2", "01", "1 " → Unsupported … -/
+theorem config_version_refused (cfg : Config) (p : Option Str)
+    (hb : cfg.defaultProfile ≠ .blob ∧ cfg.key ≠ .blob ∧ cfg.version ≠ .blob) (hv : cfg.version ≠ .text sOne) :
+    readConfig cfg p = .error .unsupported :=
+  readConfig_version cfg p hb hv
+
+/-- … no `key` row → Unsupported … -/
+theorem config_key_missing_refused (cfg : Config) (p : Option Str)
+    (hb : cfg.defaultProfile ≠ .blob) (hv : cfg.version = .text sOne) (hk : cfg.key = .missing) :
+    readConfig cfg p = .error .unsupported :=
+  readConfig_key_missing cfg p hb hv hk
+
+/-- … no profile named and no default → Unsupported. -/
+theorem config_no_profile_refused (cfg : Config)
+    (hb : cfg.key ≠ .blob) (hv : cfg.version = .text sOne) (hd : cfg.defaultProfile = .missing) :
+    readConfig cfg none = .error .unsupported :=
+  readConfig_no_profile cfg hb hv hd
+
+/-- A key row that does not parse: Unsupported; one whose method is not the caller's: Input; one that does not resolve
+    (no / bad salt, no / bad pass key): Input — each with nothing written (`open_never_writes`). -/
+theorem config_key_text_refused (cfg : Config) (ps : List (Str × C.Blob)) (it : I) (m : Option Method) (pass : PassKey)
+    (p : Option Str) (q k : Str) (hr : readConfig cfg p = .ok (q, k)) :
+    (∀ e, KeyRef.parse k = .error e → (openDisk C (.db cfg ps it) m pass p).2 = .error .unsupported) ∧
+    (∀ ref, KeyRef.parse k = .ok ref → methodMismatch ref m = true → (openDisk C (.db cfg ps it) m pass p).2 = .error .input) ∧
+    (∀ ref e, KeyRef.parse k = .ok ref → methodMismatch ref m = false → ref.resolve C pass = .error e →
+      (openDisk C (.db cfg ps it) m pass p).2 = .error .input) := by
+  refine ⟨fun e he => ?_, fun ref he hm => ?_, fun ref e he hm hres => ?_⟩
+  · have := keyRef_parse_err he
+    subst this
+    simp [openDisk, openCfg, hr, openDb, he]
+  · simp [openDisk, openCfg, hr, openDb, he, hm]
+  · have := keyRef_resolve_err hres
+    subst this
+    simp [openDisk, openCfg, hr, openDb, he, hm, hres]
+
+/-- Things that are not databases: nothing / a directory → NotFound; random bytes, a cut or garbled header → Backend; 0 bytes
+    or a foreign database → Backend.  Unchanged afterwards. -/
+theorem open_non_store_refused (m : Option Method) (pass : PassKey) (p : Option Str) :
+    openDisk C (.absent : Disk C I) m pass p = (.absent, .error .notFound) ∧
+    openDisk C (.dir : Disk C I) m pass p = (.dir, .error .notFound) ∧
+    openDisk C (.notDb : Disk C I) m pass p = (.notDb, .error .backend) ∧
+    openDisk C (.noTables : Disk C I) m pass p = (.noTables, .error .backend) := ⟨rfl, rfl, rfl, rfl⟩
+
+/-- `provision` without `recreate` over a directory / a non-database is refused with Backend and leaves it; over a database
+    with a `config` table it is `open` with the method named (so every theorem about `openDisk` applies). -/
+theorem provision_non_store (noItems : I) (m : Method) (pass : PassKey) (p : Option Str) (rnd : Rnd C)
+    (cfg : Config) (ps : List (Str × C.Blob)) (it : I) :
+    provisionDisk C noItems (.dir : Disk C I) m pass p rnd = (.dir, .error .backend) ∧
+    provisionDisk C noItems (.notDb : Disk C I) m pass p rnd = (.notDb, .error .backend) ∧
+    provisionDisk C noItems (.db cfg ps it) m pass p rnd = openDisk C (.db cfg ps it) (some m) pass p := ⟨rfl, rfl, rfl⟩
+
+/-- **A handle that has a clone cannot re-key**: refused with Input, the store as it was (so the old key still opens it);
+    the sole owner's call is the `rekey` of model A. -/
+theorem rekey_shared_handle_refused (refs : Nat) (hr : refs ≠ 1) (st : Store C I) (h : Handle C) (m : Method) (pass : PassKey)
+    (rnd : Rnd C) : rekeyAny refs C st h m pass rnd = (st, .error .input) :=
+  rekeyAny_shared refs hr st h m pass rnd
+
+theorem rekey_sole_handle (st : Store C I) (h : Handle C) (m : Method) (pass : PassKey) (rnd : Rnd C) :
+    rekeyAny 1 C st h m pass rnd = rekey C st h m pass rnd :=
+  rekeyAny_sole st h m pass rnd
+
+/-- **One profile key that does not load under the handle's store key** (a flipped byte, a cut blob, a record that does not
+    decode — in ANY profile, not only the active one): the re-key is refused and no row is rewritten — every profile key is
+    loaded before the first `UPDATE`.  Hence the old key still opens the store and the handle keeps working. -/
+theorem rekey_unloadable_profile_key_refused (st : Store C I) (h : Handle C) (m : Method) (pass : PassKey) (rnd : Rnd C)
+    (hu : ∃ e ∈ st.profiles, ∃ er, C.loadPk h.storeKey e.2 = .error er) :
+    ∃ er, rekey C st h m pass rnd = (st, .error er) :=
+  rekey_unloadable rekeyRefusesBlankRaw st h m pass rnd hu
+
+/-- `ProfileKey::from_slice` refuses with Unsupported only, and what it accepts has six members of exactly 32 bytes (a 31- or
+    33-byte member, a missing one, one given twice or as a text: refused). -/
+theorem profile_key_decode_kinds (g : Bool) (b : Bytes) (e : Err) (h : pkDecode g b = .error e) : e = .unsupported :=
+  pkDecode_err h
+
+theorem profile_key_members_32 (g : Bool) (b : Bytes) (k : PkRecord) (h : pkDecode g b = .ok k) :
+    k.ick.length = 32 ∧ k.ink.length = 32 ∧ k.ihk.length = 32 ∧ k.tnk.length = 32 ∧ k.tvk.length = 32 ∧ k.thk.length = 32 :=
+  pkDecode_ok_lengths h
+
+/-- `KeyCache::load_key` = unwrap (Encryption) then decode (Unsupported): discharges `LoadKinds` for the real loader. -/
+theorem profile_key_load_kinds {K : Type} (unwrap : Option K → Bytes → Option Bytes) (g : Bool) (sk : Option K) (blob : Bytes)
+    (e : Err) (h : loadKeyWith unwrap g sk blob = .error e) : e = .encryption ∨ e = .unsupported :=
+  loadKeyWith_err unwrap g sk blob e h
+
+/-- OBSERVATION about the model (no property states it: neither C08 nor C09 / C03 say that a record with another `ver` must be
+    refused, so the run does not judge it).  "A profile key of another format version is refused", for the reader with
+    (`g = true`) or without (`g = false`) a test of the `ver` member. -/
+def ProfileKeyVersionEnforcedBy (g : Bool) : Prop :=
+  ∀ (b : Bytes) (k : PkRecord), pkDecode g b = .ok k → ∃ m, Crypto.Cbor.decode b = some m ∧ pkVersionOk m = true
+
+/-- … and for the reader of the current tree (`Keys.profileKeyChecksVersion`, the constant `false`). -/
+def ProfileKeyVersionEnforced : Prop :=
+  ∀ (b : Bytes) (k : PkRecord), pkDecodeCurrent b = .ok k → ∃ m, Crypto.Cbor.decode b = some m ∧ pkVersionOk m = true
+
+/-- With the test the statement holds. -/
+theorem profile_key_version_enforced_of_check : ProfileKeyVersionEnforcedBy true :=
+  fun _ _ h => pkDecode_checks_version h
+
+theorem profile_key_version_enforced_current (hg : profileKeyChecksVersion = true) : ProfileKeyVersionEnforced := by
+  intro b k h
+  unfold pkDecodeCurrent at h; rw [hg] at h
+  exact pkDecode_checks_version h
+
+/-- Without it the statement does not hold (observation, no property states it): the derived deserialiser skips `ver` like any
+    unknown member.
+    For EVERY version text other than "1" and every six 32-byte members, the record is read by the reader without the test
+    (and refused by the one with it). -/
+theorem profile_key_other_version (v : Bytes) (hv : v ≠ sOne) (hl : v.length < 2 ^ 64) (k : PkRecord)
+    (h : k.ick.length = 32 ∧ k.ink.length = 32 ∧ k.ihk.length = 32 ∧ k.tnk.length = 32 ∧ k.tvk.length = 32 ∧ k.thk.length = 32) :
+    let doc := Crypto.Cbor.encodeMap [(nVer, .text v), (nIck, .bytes k.ick), (nInk, .bytes k.ink), (nIhk, .bytes k.ihk),
+      (nTnk, .bytes k.tnk), (nTvk, .bytes k.tvk), (nThk, .bytes k.thk)]
+    pkDecode false doc = .ok k ∧ pkDecode true doc = .error .unsupported :=
+  pkDecode_other_version v hv hl k h
+
+def verWitness : PkRecord :=
+  ⟨List.replicate 32 1, List.replicate 32 2, List.replicate 32 3, List.replicate 32 4, List.replicate 32 5, List.replicate 32 6⟩
+
+/-- Witness: the record `{ver: "2", ick … thk: 32 bytes each}`. -/
+theorem profile_key_version_ignored_without_check : ¬ ProfileKeyVersionEnforcedBy false := by
+  intro h
+  have hw := pkDecode_other_version [0x32] (by decide) (by decide) verWitness (by decide)
+  simp only at hw
+  obtain ⟨m, hm, hv⟩ := h _ _ hw.1
+  have hd := Askar.Lemmas.StorageScheme.Cbor.decode_encodeMap _
+    (fits_seven [0x32] verWitness.ick verWitness.ink verWitness.ihk verWitness.tnk verWitness.tvk verWitness.thk
+      (by decide) (by decide) (by decide) (by decide) (by decide) (by decide) (by decide))
+  rw [hd] at hm
+  cases hm
+  exact absurd hv (by decide)
+
+/-- Which of the two holds of the model's current reader is decided by the constant. -/
+theorem profile_key_version_status :
+    (profileKeyChecksVersion = true ∧ ProfileKeyVersionEnforced) ∨ (profileKeyChecksVersion = false ∧ ¬ ProfileKeyVersionEnforced) := by
+  cases hg : profileKeyChecksVersion with
+  | true => exact Or.inl ⟨rfl, profile_key_version_enforced_current hg⟩
+  | false =>
+    refine Or.inr ⟨rfl, fun h => profile_key_version_ignored_without_check ?_⟩
+    intro b k hk
+    have := h b k (by unfold pkDecodeCurrent; rw [hg]; exact hk)
+    exact this
+
+/-- What does hold without the test: everything else about the record (`profile_key_members_32`), and the records this code
+    writes are read back by both readers. -/
+theorem profile_key_roundtrip (g : Bool) (k : PkRecord)
+    (h : k.ick.length = 32 ∧ k.ink.length = 32 ∧ k.ihk.length = 32 ∧ k.tnk.length = 32 ∧ k.tvk.length = 32 ∧ k.thk.length = 32) :
+    pkDecode g k.toCbor = .ok k :=
+  pkDecode_toCbor g k h
+
+/-! Non-vacuity of the hypotheses above. -/
+example : LoadKinds Crypto.toy := by
+  intro sk b e h
+  have h' : (if sk = b.1 then Except.ok b.2 else Except.error Err.encryption) = (Except.error e : Except Err Nat) := h
+  by_cases hs : sk = b.1
+  · rw [if_pos hs] at h'; cases h'
+  · rw [if_neg hs] at h'; cases h'; exact Or.inl rfl
+example : readConfig ⟨.text [0x70], .text sRaw, .text sOne⟩ none = .ok ([0x70], sRaw) := by rfl
+example : readConfig ⟨.text [0x70], .text sRaw, .text [0x32]⟩ none = .error .unsupported := by rfl
+example : readConfig ⟨.blob, .text sRaw, .text [0x32]⟩ (some [0x70]) = .error .backend := by rfl
+example : readConfig ⟨Cell.null, Cell.null, .text sOne⟩ none = .ok ([], []) := by rfl
+example : ∃ e ∈ ([([0x70], ((some 1 : Option Nat), (1 : Nat)))] : List (Str × Crypto.toy.Blob)), ∃ er, Crypto.toy.loadPk none e.2 = .error er :=
+  ⟨_, List.mem_singleton.2 rfl, .encryption, rfl⟩
+
+/-! ## Model B′ — the SQLite parameters of a store URI (Model/SqliteOpts.lean) -/
+
+/-- **`SqliteStoreOptions::new` is total and refuses with `Input` only.** -/
+theorem sqlite_options_total (dmax : Nat) (o : Options) :
+    (∃ r, sqliteOptions dmax o = .ok r) ∨ sqliteOptions dmax o = .error .input := by
+  cases h : sqliteOptions dmax o with
+  | ok r => exact Or.inl ⟨r, rfl⟩
+  | error e => rw [sqliteOptions_err h]; exact Or.inr rfl
+
+/-- None of the seven recognised names present — whatever else the query holds — gives the default option set … -/
+theorem sqlite_options_default (dmax : Nat) (o : Options) (h : ∀ k ∈ recognised, Uri.mapGet o.query k = none) :
+    sqliteOptions dmax o = .ok (defaultOpts dmax (o.host ++ o.path)) :=
+  sqliteOptions_default dmax o h
+
+/-- … and in general only those seven are looked at: unknown parameters never change the result. -/
+theorem sqlite_options_ignore_unknown (dmax : Nat) (o : Options) (q' : QueryMap)
+    (h : ∀ k ∈ recognised, Uri.mapGet o.query k = Uri.mapGet q' k) :
+    sqliteOptions dmax { o with query := q' } = sqliteOptions dmax o :=
+  sqliteOptions_congr dmax o q' h
+
+/-- A recognised parameter with a value its parser refuses: `Input` (shown for the first one checked; `param_garbage` is the
+    step for each of the others). -/
+theorem sqlite_options_garbage_busy_timeout (dmax : Nat) (o : Options) (v : Str) (h : Uri.mapGet o.query kBusy = some v)
+    (hp : parseUnsigned 64 v = none) : sqliteOptions dmax o = .error .input :=
+  sqliteOptions_bad_busy dmax o v h hp
+
+theorem sqlite_param_garbage {α : Type} (q : QueryMap) (k v : Str) (d : α) (parse : Str → Option α)
+    (h : Uri.mapGet q k = some v) (hp : parse v = none) : param q k d parse = .error .input :=
+  param_garbage d parse h hp
+
+/-- `from_path(p)` — hence `in_memory()` and `default()` — is the default option set for `p`, never an error
+    (the `unwrap()` in `from_path` and the `expect` in `default` cannot fire). -/
+theorem sqlite_from_path (dmax : Nat) (p : Str) : fromPath dmax p = .ok (defaultOpts dmax p) := fromPath_eq dmax p
+
+/-- Rust's unsigned `FromStr` as the numeric parameters use it: an accepted text denotes a value of the type; a minus sign,
+    or any non-digit after an optional single leading `+`, or the empty text, is refused. -/
+theorem unsigned_parse_in_range (bits : Nat) (s : Str) (n : Nat) (h : parseUnsigned bits s = some n) : n < 2 ^ bits :=
+  parseUnsigned_lt h
+
+theorem unsigned_parse_rejects (bits : Nat) (c0 : UInt8) (rest : Str) :
+    parseUnsigned bits [] = none ∧ parseUnsigned bits (0x2D :: rest) = none ∧
+    (∀ c ∈ rest, isDigit c = false → parseUnsigned bits (c0 :: rest) = none) :=
+  ⟨rfl, parseUnsigned_minus bits rest, fun c hc hd => parseUnsigned_nondigit bits c0 rest c hc hd⟩
+
+/-! Non-vacuity: a URI with every kind of parameter, computed; garbage refused. -/
+example : sqliteOptionsOfUri 8 (lit "sqlite:///tmp/x.db?busy_timeout=250&journal_mode=Delete&cache=SHARED&x=1&max_connections=%2B3") =
+    .ok { inMemory := false, path := lit "/tmp/x.db", busyMs := 250, maxConn := 3, minConn := 1, journal := .delete,
+          locking := .normal, sharedCache := true, sync := .full } := by rfl
+example : sqliteOptionsOfUri 8 (lit "sqlite://:memory:") = .ok (defaultOpts 8 sMemory) := by rfl
+example : sqliteOptionsOfUri 8 (lit "sqlite://x.db?max_connections=-1") = .error .input := by rfl
+example : sqliteOptionsOfUri 8 (lit "sqlite://x.db?synchronous=2") = .error .input := by rfl
+example : parseUnsigned 32 (lit "4294967295") = some 4294967295 ∧ parseUnsigned 32 (lit "4294967296") = none := by decide
 
 end Askar.C08
